@@ -492,6 +492,54 @@ def numpy_typed_args_unit(ctx):
         jax.clear_caches()
 
 
+def numpy_layout_unit(ctx):
+    """The same VALUES given as NumPy arrays in another memory layout (Fortran order, a transposed view, a strided or reversed view) are the
+    same arguments: eager, jitted and jax-array calls must agree.  (Seeded change C14f converted non-C-contiguous NumPy inputs in memory
+    order on the eager path only.)"""
+    s = _setup()
+    jnp, jr, eqx = s["jnp"], s["jr"], s["eqx"]
+    from flowjax import bijections as B
+    from flowjax import distributions as D
+    from flowjax import flows as F
+
+    u = ctx.unit("numpy-layouts", "log_prob / transform / sample with NumPy inputs in C order, Fortran order, as transposed / strided / reversed views: "
+                                  "eager result == result for the jax array of the same values == eqx.filter_jit result")
+    r = ctx.rng
+    k = jr.PRNGKey(int(r.integers(0, 2**31 - 1)))
+    flow = F.coupling_flow(k, base_dist=D.StandardNormal((3,)), cond_dim=2, flow_layers=1, nn_width=4)
+    aff = B.Affine(jnp.asarray(r.normal(0, 1, (4, 3))), jnp.asarray(np.exp(r.normal(0, 0.5, (4, 3)))))
+    X = r.normal(0, 1, (4, 3))
+    C = r.normal(0, 1, (4, 2))
+
+    def layouts(a):
+        big = np.zeros((a.shape[0] * 2, a.shape[1] * 2))
+        big[::2, ::2] = a
+        rev = np.ascontiguousarray(a[::-1, ::-1])
+        return {"C order": np.ascontiguousarray(a), "Fortran order": np.asfortranarray(a), "transposed view": np.ascontiguousarray(a.T).T,
+                "strided view": big[::2, ::2], "reversed view": rev[::-1, ::-1]}
+
+    calls = [("Normal((3,)).log_prob(x batch (4,))", lambda x, c: D.Normal(jnp.arange(3.0), jnp.asarray([1.0, 2.0, 0.5])).log_prob(x)),
+             ("coupling_flow.log_prob(x batch (4,), condition batch (4,))", lambda x, c: flow.log_prob(x, c)),
+             ("coupling_flow.sample(key, condition batch (4,))", lambda x, c: flow.sample(k, condition=c)),
+             ("Affine shape (4, 3) .transform(x)", lambda x, c: aff.transform(x)),
+             ("Affine shape (4, 3) .inverse_and_log_det(x)", lambda x, c: aff.inverse_and_log_det(x))]
+    for name, fn in calls:
+        ref = fn(jnp.asarray(X), jnp.asarray(C))
+        jit_ref = eqx.filter_jit(fn)(jnp.asarray(X), jnp.asarray(C))
+        for (lx, xv), (lc, cv) in zip(layouts(X).items(), layouts(C).items()):
+            assert np.array_equal(xv, X) and np.array_equal(cv, C)
+            u.count((name, lx), nontrivial=lx != "C order", tag=lx)
+            try:
+                got = fn(xv, cv)
+                err = cmp(ref, got, 1e-12) or cmp(jit_ref, eqx.filter_jit(fn)(xv, cv), 1e-12)
+            except Exception as e:  # noqa: BLE001
+                err = f"raised {type(e).__name__}: {str(e)[:80]}"
+            if err:
+                ctx.violation(sig=f"numpy-layout:{name.split('(')[0]}:{lx}", what=f"{name} with the NumPy inputs in {lx}: {err} (same values as the jax-array call)",
+                              case={"kind": "numpy-layout", "call": name, "layout": lx}, found_input=True, unit=u.name, expected="same result as for the jax array of the same values",
+                              observed=str(err)[:200], broken="purity / mode transparency for NumPy inputs of any memory layout")
+
+
 # ======================================================================================================
 def run(ctx):
     s = _setup()
@@ -568,6 +616,7 @@ def run(ctx):
             if len(u.hashes) % 9 == 1:
                 ctx.sample({"case": name, "seed": seed, "methods": methods_of(entry[1], entry[3]), "modes": ["eager", "jit", "vmap", "flatten", "serialise"], "errors": errs})
     numpy_typed_args_unit(ctx)
+    numpy_layout_unit(ctx)
     ctx.assumptions += [
         "the eager result is the reference; its correctness is the subject of other properties",
         "jit / vmap transparency, purity and freedom from hidden state are decided by sampled correspondence only (PARTIAL)",
@@ -595,6 +644,13 @@ def replay(ctx, rep):
         errs, info = run_case(c["name"], T[c["name"]], c["seed"], modes=("serialise", "flatten"))
         print(errs)
         return not errs
+    if c.get("kind") == "numpy-layout":
+        n0 = len(ctx.violations)
+        numpy_layout_unit(ctx)
+        hits = [v for v in ctx.violations[n0:] if v["sig"] == rep.get("sig")]
+        for v in hits:
+            print("still failing:", v["what"][:300])
+        return not hits
     if c.get("kind") == "numpy-args":
         n0 = len(ctx.violations)
         numpy_typed_args_unit(ctx)
